@@ -6,6 +6,7 @@ import (
 	"sort"
 	"strconv"
 	"strings"
+	"sync"
 
 	"github.com/btcsuite/btcd/blockchain"
 	"github.com/btcsuite/btcd/btcutil/v2"
@@ -58,7 +59,44 @@ func (P) Exec(line string) string {
 		if len(f) < 3 {
 			return "bad-op"
 		}
-		return execChain(parseCfg(f[2]), f[3:])
+		return execChain(parseCfg(f[2]), f[3:], 0)
+	case "multi":
+		// independent chain instances run at the same time, each on its own database; the
+		// sub-lines are separated by "##" and so are the answers
+		var subs [][]string
+		cur := []string{}
+		for _, t := range f[2:] {
+			if t == "##" {
+				subs = append(subs, cur)
+				cur = []string{}
+			} else {
+				cur = append(cur, t)
+			}
+		}
+		subs = append(subs, cur)
+		if len(subs) > multiMax {
+			return "bad-op"
+		}
+		res := make([]string, len(subs))
+		var wg sync.WaitGroup
+		for i := range subs {
+			wg.Add(1)
+			go func(i int) {
+				defer wg.Done()
+				defer func() {
+					if recover() != nil {
+						res[i] = "panic"
+					}
+				}()
+				if len(subs[i]) < 1 {
+					res[i] = "bad-op"
+					return
+				}
+				res[i] = execChain(parseCfg(subs[i][0]), subs[i][1:], i)
+			}(i)
+		}
+		wg.Wait()
+		return strings.Join(res, "##")
 	case "cache":
 		return execCache(f[2:])
 	}
@@ -72,6 +110,103 @@ type chainRun struct {
 	in     *inst
 	known  map[aOp]bool // every outpoint any block on the line has created so far
 	blocks map[int]*btcutil.Block
+	txs    map[int]*btcutil.Tx // abstract txid -> real transaction (first definition)
+	atxs   map[int]aTx
+	iscb   map[int]bool
+	views  []savedView
+}
+
+type savedView struct {
+	t    aTx
+	cb   bool
+	view *blockchain.UtxoViewpoint
+}
+
+// viewStr prints what a view says about the outputs and (non-coinbase) inputs of t; it also
+// checks that FetchPrevOutput agrees with LookupEntry.
+func (r *chainRun) viewStr(v savedView) string {
+	var ops []aOp
+	for i := range v.t.outs {
+		ops = append(ops, aOp{v.t.id, i})
+	}
+	if !v.cb {
+		ops = append(ops, v.t.ins...)
+	}
+	parts := make([]string, len(ops))
+	for i, o := range ops {
+		e := v.view.LookupEntry(r.realOp(o))
+		po := v.view.FetchPrevOutput(r.realOp(o))
+		switch {
+		case e == nil:
+			parts[i] = "none"
+			if po != nil {
+				parts[i] = "incons"
+			}
+		case po == nil || po.Value != e.Amount() || string(po.PkScript) != string(e.PkScript()):
+			parts[i] = "incons"
+		case e.IsSpent():
+			parts[i] = "none"
+		default:
+			parts[i] = fmtEntry(e.Amount(), e.PkScript(), e.BlockHeight(), e.IsCoinBase())
+		}
+	}
+	return fmt.Sprintf("%d:%s", v.t.id, strings.Join(parts, ","))
+}
+
+// concurrentObserve runs 8 readers at once (FetchUtxoEntry over every known outpoint in rotated
+// order, FetchUtxoView on known transactions); all must see the same set.
+func (r *chainRun) concurrentObserve() string {
+	ops := r.knownSorted()
+	var ids []int
+	for id := range r.txs {
+		ids = append(ids, id)
+	}
+	sort.Ints(ids)
+	const readers = 8
+	res := make([][]string, readers)
+	bad := make([]bool, readers)
+	var wg sync.WaitGroup
+	for g := 0; g < readers; g++ {
+		wg.Add(1)
+		go func(g int) {
+			defer wg.Done()
+			defer func() {
+				if recover() != nil {
+					bad[g] = true
+				}
+			}()
+			out := make([]string, len(ops))
+			for k := range ops {
+				i := (k + g*len(ops)/readers) % len(ops)
+				out[i] = r.fetch(ops[i])
+				if g%2 == 1 && len(ids) > 0 && k%3 == 0 {
+					id := ids[(k+g)%len(ids)]
+					if _, err := r.in.chain.FetchUtxoView(r.txs[id]); err != nil {
+						bad[g] = true
+					}
+				}
+			}
+			res[g] = out
+		}(g)
+	}
+	wg.Wait()
+	for g := 0; g < readers; g++ {
+		if bad[g] {
+			return "diverge"
+		}
+		for i := range ops {
+			if res[g][i] != res[0][i] {
+				return "diverge"
+			}
+		}
+	}
+	var u []string
+	for i, o := range ops {
+		if res[0][i] != "none" {
+			u = append(u, fmt.Sprintf("%d.%d:%s", o.t, o.i, res[0][i]))
+		}
+	}
+	return "u=" + strings.Join(u, ",")
 }
 
 func (r *chainRun) knownSorted() []aOp {
@@ -176,9 +311,10 @@ func (r *chainRun) observe() string {
 	return fmt.Sprintf("u=%s;j=%s;n=%d", strings.Join(u, ","), strings.Join(j, "/"), r.in.chain.BestSnapshot().TotalTxns)
 }
 
-func execChain(c cfg, ops []string) string {
-	r := &chainRun{b: newBuilder(c), known: map[aOp]bool{}, blocks: map[int]*btcutil.Block{}}
-	r.in = newInst(r.b.params, c.cache)
+func execChain(c cfg, ops []string, slot int) string {
+	r := &chainRun{b: newBuilder(c), known: map[aOp]bool{}, blocks: map[int]*btcutil.Block{},
+		txs: map[int]*btcutil.Tx{}, atxs: map[int]aTx{}, iscb: map[int]bool{}}
+	r.in = newInst(r.b.params, c.cache, slot)
 	defer r.in.close()
 	var out []string
 	for _, op := range ops {
@@ -191,6 +327,11 @@ func execChain(c cfg, ops []string) string {
 			}
 			r.blocks[a.id] = blk
 			for ti, t := range a.txs {
+				if _, ok := r.txs[t.id]; !ok {
+					r.txs[t.id] = blk.Transactions()[ti]
+					r.atxs[t.id] = t
+					r.iscb[t.id] = ti == 0
+				}
 				for i := range t.outs {
 					r.known[aOp{t.id, i}] = true
 				}
@@ -261,6 +402,28 @@ func execChain(c cfg, ops []string) string {
 			}
 			r.in.chain = ch
 			out = append(out, "ok")
+		case 'V':
+			id := atoi(op[1:])
+			tx, ok := r.txs[id]
+			if !ok {
+				return "bad-line"
+			}
+			v, err := r.in.chain.FetchUtxoView(tx)
+			if err != nil {
+				out = append(out, "err")
+				continue
+			}
+			sv := savedView{r.atxs[id], r.iscb[id], v}
+			r.views = append(r.views, sv)
+			out = append(out, r.viewStr(sv))
+		case 'W':
+			parts := make([]string, len(r.views))
+			for i, sv := range r.views {
+				parts[i] = r.viewStr(sv)
+			}
+			out = append(out, "w="+strings.Join(parts, "/"))
+		case 'C':
+			out = append(out, r.concurrentObserve())
 		case 'R':
 			// graceful restart: flush, drop the chain object, load everything back from the database
 			if err := r.in.chain.FlushUtxoCache(blockchain.FlushRequired); err != nil {
